@@ -63,7 +63,7 @@ MANIFEST_TEXT = {
 PROPS["C20"] = dict(
     suites=[("normalize", {Q: 400, T: 40000})],
     rule="normalize suite: exhaustive sequences of announcements/uses over 3 call-site ids up to length 4 (quick) / 6 "
-         "(thorough); random sender-like streams (1..6 call sites, random 64-bit ids, duplicate announcements at "
+         "(thorough); random sender-like streams (1..6 call sites; random 64-bit, address-like or small dense ids that may coincide with the canonical ones; duplicate announcements at "
          "arbitrary positions, uses before announcement) up to 30/120 events; each case is also run under two injective "
          "relabellings with changed lines and event names; non-trivial = >= 1 duplicate announcement and >= 2 distinct "
          "call sites; distinct by input text",
@@ -179,7 +179,11 @@ MANIFEST_TEXT["C08"] = dict(
 _CAP_RULE = ("capture suite: well-formed single-threaded programs (as C01) driven directly into Registry + capture layer(s); layer "
              "filters from {none, level threshold, name predicate, target-prefix predicate}, optional global LevelFilter layer, "
              "pass-through layers in every position, 1..3 capture layers, stale follows-from targets; the whole storage is dumped "
-             "through the public query API and every C17 law is cross-checked on it; non-trivial = >= 3 captured spans, depth >= 2 and "
+             "through the public query API and every C17 law is cross-checked on it, including equality / order of handles at every pair of "
+             "positions within a storage and against a second storage (another layer's, or a second run's); for C16 one case in three "
+             "applies the filters through tracing-subscriber's per-layer filtering (Layer::with_filter) next to an unfiltered layer "
+             "(no panic, stack = alone; not compared with the model: there the contextual parent is the nearest entered span enabled for "
+             "the filter); non-trivial = >= 3 captured spans, depth >= 2 and "
              ">= 1 captured event in the first layer; distinct by input text")
 for _p in ["C05", "C16", "C17"]:
     PROPS[_p] = dict(suites=[("capture", {Q: 600, T: 40000})], rule=_CAP_RULE)
@@ -199,7 +203,8 @@ MANIFEST_TEXT["C03"] = dict(
 PROPS["C03"]["rule"] = PROPS["C03"]["rule"]
 
 _PROG_RULE = ("prog suite: well-formed single-threaded guest programs at subscriber-call level (1..6 call sites with 0..=32 fields, every "
-              "level, both kinds; contextual / explicit / explicit-root parents; values of every primitive kind; nested, re-entrant and "
+              "level, both kinds, sometimes declaring a field name twice; contextual / explicit / explicit-root parents; values of every primitive kind, "
+              "mostly in declaration order, sometimes permuted or naming a field more than once (public value_set API); nested, re-entrant and "
               "non-LIFO enters; clones, drops, follows-from, records, events, repeated registrations), exhaustive programs over an "
               "11-symbol alphabet up to length 4 (quick) / 6 (thorough) and random programs up to 40 / 200 ops; each is run natively on a "
               "StrictHost, under the real TracingEventSender, and tunnelled (sender -> serde_json -> receiver -> StrictHost); "
@@ -413,7 +418,9 @@ PROPS["C19"] = dict(suites=[("capconc", {Q: 60, T: 1500})],
     rule="capconc suite: 2-3 threads under forced schedules (one operation at a time executed by the designated real thread; random "
          "interleavings of per-thread programs of up to 8 ops, with 0-2 shared spans created by the main thread that threads may enter, "
          "record on, follow or use as explicit parents) compared with the interleaving model; 2-16 free-running real threads with "
-         "programs of up to 30 (quick) / 120 (thorough) ops on one shared Registry + CaptureLayer (layer filters none / level / name), "
+         "programs of up to 30 (quick) / 120 (thorough) ops on one shared Registry + CaptureLayer (layer filters none / level / name); the shared "
+         "spans' call site has one field per thread and a thread records only its own (final value = its last record, whatever the others did); "
+         "one case in ten is a record storm (2-8 threads x 2000 / 20000 records on one shared span, each thread re-reading its field after every record), "
          "checked per thread against the single-threaded reference run plus all C17 laws on the shared storage; all threads are kept "
          "alive until the end of a case (the Registry's per-thread stacks live in recycled thread_local slots); non-trivial = >= 2 "
          "threads creating spans (free) or a schedule alternating between threads at least twice (forced); distinct by input text")
